@@ -145,6 +145,34 @@ fn check_source(rep: &Reporter, spec: &LangSpec, src: &str, max_holes: usize, st
         // hole text as ONE node of the cut (independent parse, own sigil rewriting), the pattern
         // builder lost it: a violation, not a failed precondition
         let ex = spec.lang.expando_char();
+        // the converse: the pattern has a meta variable we did not write. A meta variable is spelled
+        // sigil + [A-Z_][A-Z0-9_]* (documented grammar, restated here); a variable of the pattern whose
+        // name is not of that form was made out of a token of the CODE that spells no hole
+        {
+          fn names_of(p: &PatternNode, out: &mut Vec<String>) {
+            match p {
+              PatternNode::MetaVar { meta_var } => match meta_var {
+                MetaVariable::Capture(n, _) | MetaVariable::MultiCapture(n) => out.push(n.clone()),
+                _ => {}
+              },
+              PatternNode::Internal { children, .. } => children.iter().for_each(|c| names_of(c, out)),
+              _ => {}
+            }
+          }
+          let mut all = vec![];
+          names_of(&pat.node, &mut all);
+          let valid = |name: &str| {
+            let mut cs = name.chars();
+            cs.next().is_some_and(|c| c.is_ascii_uppercase() || c == '_') && cs.all(|c| c.is_ascii_uppercase() || c.is_ascii_digit() || c == '_')
+          };
+          if let Some(bad) = all.iter().find(|a| !valid(a)) {
+            rep.violation(
+              "code-token-that-spells-no-hole-became-a-meta-variable-of-the-pattern",
+              json!({"lang": spec.name, "src": src, "node": [n.range().start, n.range().end], "pattern": cut.text, "meta_variable": bad}),
+            );
+            continue;
+          }
+        }
         if !n.text().contains('$') && !n.text().contains(ex) {
           let own_pre: String = if ex == '$' { cut.text.clone() } else { cut.text.replace('$', &ex.to_string()) };
           let indep = spec.lang.ast_grep(&own_pre);
